@@ -180,7 +180,7 @@ func runC03(h *hz.H) {
 		h.InternalError(fmt.Sprintf("vacuous: only %d pulsar types found", len(types)))
 		return
 	}
-	limit := int64(400000)
+	limit := int64(250000)
 	if h.Thorough() {
 		limit = 6000000
 	}
